@@ -31,10 +31,14 @@ VCLS_ALL = VCLS_QUICK + ["int16", "uint16", "uint32", "td[us]", "td[s]", "dt[ms]
 VCONTS = ["pd.Series", "pd.Index", "pd.Series[arrow]", "pd.Index[arrow]", "pd.Series[masked]", "pd.DataFrame", "pl.Series", "pl.DataFrame", "pa.Array", "pa.ChunkedArray"]
 KCLS = ["int64", "float64", "str", "bool", "dt[ns]"]
 KCONTS = ["pd.Series", "pd.Index", "pd.Categorical", "pd.Series[category]", "pd.Series[arrow]", "pd.Index[arrow]", "pd.Series[masked]", "pd.DataFrame", "pl.Series", "pl.DataFrame", "pa.Array", "pa.DictionaryArray", "pa.ChunkedArray"]
-SCOPE = {"quick": "values side: 16 dtype classes (float64/32, int8/32/64, uint8/64, bool, timedelta ns/ms, datetime ns/us/s, tz-aware ns-UTC and us-Europe/Paris, int64 near 2**62) x n<=3 rows x every null pattern x 10 containers (ChunkedArray: every chunking into <=3 chunks) "
-                  "with NumPy int64 keys; keys side: 5 key classes (int64, float64, str, bool, datetime) x keys over {null,a,b} n<=3 exhaustive x 13 containers (ChunkedArray chunkings) with float64 values; both sides: same-family pairs "
-                  "(polars/polars, pyarrow/pyarrow, pandas-Arrow/pandas-Arrow, ChunkedArray/ChunkedArray with every pair of chunkings) for float64, int32, tz-aware and bool values; 19 operations each; seeded random datasets up to 12 rows",
-         "thorough": "as quick with all 25 value classes (int16, uint16/32, timedelta us/s, datetime ms, tz-aware ms-UTC, s-America/New_York, ns-Europe/Paris), n<=4 rows, keys n<=4, random datasets up to 40 rows"}
+SCOPE = {"quick": "values side: 16 value classes (float64/32, int8/32/64, uint8/64, bool, timedelta ns/ms, datetime ns/us/s, tz-aware ns-UTC and us-Europe/Paris, int64 near 2**62) x n<=3 rows x every null pattern x "
+                  "{NumPy reference, pandas Series / Index NumPy-backed, pandas Series / Index Arrow-backed, pandas masked Series, pandas DataFrame, polars Series / DataFrame, pyarrow Array (+ NaN-instead-of-null for floats), "
+                  "pyarrow ChunkedArray in every chunking into <=3 chunks} with NumPy int64 keys; "
+                  "keys side: 5 key classes (int64, float64, str, bool, datetime ns) x keys over {null,a,b}, n<=3 exhaustive x {pandas Series / Index (NumPy-, Arrow-backed, masked), pandas Categorical / category Series, pandas DataFrame, polars Series / DataFrame / Categorical, "
+                  "pyarrow Array / DictionaryArray / float Array with NaN, ChunkedArray in every chunking} with float64 NumPy values; "
+                  "both sides: keys over {null,a,b} n in 2..3 x {int64/float64, str/int32, float64/tz-aware us-Europe/Paris, int64/bool} x 8 same-family pairs (polars, polars frames, pyarrow, pandas Arrow, pandas NumPy, pandas masked, Categorical, pandas frames) "
+                  "and ChunkedArray keys x ChunkedArray values in every pair of chunkings (misaligned); 19 operations (8 reductions, cumsum/cummin/cummax, rolling sum/mean/min/max window 2, shift, diff, head(2), nth(1)); seeded random datasets up to 12 rows",
+         "thorough": "as quick with all 25 value classes (int16, uint16/32, timedelta us/s, datetime ms, tz-aware ms-UTC, s-America/New_York, ns-Europe/Paris), n<=4 rows on every side, datetime values on the keys side, two more class pairs on both sides, random datasets up to 40 rows"}
 RULE = ("a case = one logical dataset (key labels with nulls, key class, value scalars with nulls, value class) + a list of (key container, key chunking, value container, value chunking) variants; "
         "distinct = distinct canonical JSON; non-trivial = two labels, or a null key, or a null value, or a chunked layout")
 ASSUMPTIONS = ["the constructors of pandas / polars / pyarrow used to materialise a dataset in a container preserve the logical values (pa.array, pl.from_arrow, pd.arrays.ArrowExtensionArray, pd.array, DatetimeIndex.tz_localize/tz_convert)",
@@ -334,15 +338,16 @@ def _variants_values(vcls, n, native):
 
 def _cases_values(tier):
     big = tier == "thorough"
-    for n in range(1, (4 if big else 3) + 1):
-        keys = [0, 1, 0, 1][:n] if n != 3 else [0, 1, 0]
-        for vcls in (VCLS_ALL if big else VCLS_QUICK):
+    def one(vcls):
+        for n in ([2, 1, 3, 4] if big else [2, 1, 3]):          # two rows first: two groups, the [1, 1] chunking, every null pattern
+            keys = [0, 1, 0, 1][:n] if n != 3 else [0, 1, 0]
             for pat in itertools.product([False, True], repeat=n):
                 if n == 4 and sum(pat) > 2 and not all(pat): continue
                 native = make_values(vcls, n, pat)
                 vs = _variants_values(vcls, n, native)
                 for j in range(0, len(vs), 7):
                     yield {"side": "values", "keys": keys, "kcls": "int64", "vcls": vcls, "nullpat": list(pat), "variants": vs[j:j + 7]}
+    return C.roundrobin(*[one(v) for v in (VCLS_ALL if big else VCLS_QUICK)])
 
 
 def _variants_keys(n):
@@ -355,14 +360,15 @@ def _variants_keys(n):
 
 def _cases_keys(tier):
     big = tier == "thorough"
-    for n in range(1, (4 if big else 3) + 1):
-        for kcls in KCLS:
+    def one(kcls):
+        for n in ([2, 1, 3, 4] if big else [2, 1, 3]):
             for keys in itertools.product([None, 0, 1], repeat=n):
                 if n == 4 and keys[0] == 1: continue
                 vs = _variants_keys(n)
                 for vcls, pat in [("float64", [i == 1 for i in range(n)])] + ([("dt[ns]", [False] * n)] if kcls == "int64" and big else []):
                     for j in range(0, len(vs), 8):
                         yield {"side": "keys", "keys": list(keys), "kcls": kcls, "vcls": vcls, "nullpat": pat, "variants": vs[j:j + 8]}
+    return C.roundrobin(*[one(k) for k in KCLS])
 
 
 def _cases_both(tier):
